@@ -397,6 +397,17 @@ Theorem convex_chord_outside_after : forall l l1 l2, convex_ccw l ->
   ~ ldet l1 l2 a2 b2 == 0 -> tx < ty -> forall t, ty < t -> orient a2 b2 (lpoint l1 l2 t) < 0.
 Proof. exact chord_after_outside. Qed.
 Print Assumptions convex_chord_outside_after.
+(** so the chord is exactly where the column contains the line's points (the model's in_polygon) *)
+Theorem convex_chord_is_containment : forall l l1 l2 a1 b1 a2 b2 s1 s2 tx ty t,
+  (3 <= length l)%nat -> convex_ccw l ->
+  In (a1, b1) (edges l) -> In (a2, b2) (edges l) -> 0 <= s1 <= 1 -> 0 <= s2 <= 1 ->
+  pt_eq (lpoint l1 l2 tx) (lpoint a1 b1 s1) -> pt_eq (lpoint l1 l2 ty) (lpoint a2 b2 s2) ->
+  ~ ldet l1 l2 a1 b1 == 0 -> ~ ldet l1 l2 a2 b2 == 0 -> tx < ty ->
+  (forall u w, In (u, w) (edges l) -> ~ (orient u w (lpoint l1 l2 tx) == 0 /\ orient u w (lpoint l1 l2 ty) == 0)) ->
+  off_edge_lines l (lpoint l1 l2 t) ->
+  (in_polygon (lpoint l1 l2 t) l = true <-> tx < t /\ t < ty).
+Proof. exact chord_is_containment. Qed.
+Print Assumptions convex_chord_is_containment.
 (** a column the line really crosses is never skipped: it passes the bounding-box test and has a hit,
     on an edge of the column, between a point strictly inside and a point not in the closed column *)
 Theorem crossed_convex_column_not_skipped : forall l l1 l2 t0 t1,
